@@ -26,6 +26,7 @@ var (
 	fReplay   = flag.String("replay", "", "replay file to execute instead of seeded runs")
 	fReplays  = flag.String("replaydir", "/verif/replays", "where violation replay files are written")
 	fMaxViol  = flag.Int("maxviol", 3, "stop after this many violations")
+	fKnown    = flag.String("known", "", "JSON file: known findings of this property [{check,harness,message_contains}]; a run matching one is counted, written once per worker, and does not stop the worker")
 	fDetEvery = flag.Int("detevery", 64, "re-execute every n-th run and compare trace hashes")
 	fMinimize = flag.Int("minimize", 1500, "re-execution budget for minimisation")
 	fSteps    = flag.Int("maxsteps", 200000, "step budget per run")
@@ -177,6 +178,7 @@ type summary struct {
 	DetChecks   int            `json:"determinism_rechecks"`
 	DetFail     []string       `json:"determinism_failures"`
 	Violations  int            `json:"violations"`
+	KnownRuns   int            `json:"known_finding_runs"`
 	MaxSteps    int            `json:"max_steps_in_a_run"`
 	WallS       float64        `json:"wall_s"`
 	Samples     []any          `json:"samples"`
@@ -242,6 +244,8 @@ func TestWorker(t *testing.T) {
 	sum := summary{Kind: "summary", Prop: *fProp, Probes: map[string]int{}, Faults: map[string]int{}, Anomalies: map[string]int{},
 		PerHarness: map[string]int{}, Strategies: map[string]int{}, SwitchPairs: map[string]int{}}
 	hashes := map[uint64]bool{}
+	known := loadKnownFile(*fKnown)
+	knownSeen := map[int]bool{}
 	for n := 0; n < *fCount; n++ {
 		if *fWall > 0 && time.Since(start).Seconds() > *fWall {
 			break
@@ -319,6 +323,23 @@ func TestWorker(t *testing.T) {
 				}
 				sum.DetFail = append(sum.DetFail, fmt.Sprintf("run %d (%s): hash %x vs %x, check %q vs %q", idx, h.Name, r.Hash, h2, o.check, o2.check))
 			}
+		}
+		if ki := matchKnown(known, h.Name, o.check, o.msg); ki >= 0 {
+			// a listed finding: counted; its first occurrence in this worker is written out so that the
+			// driver can re-verify it and print the KNOWN-FINDING line; the worker carries on
+			sum.KnownRuns++
+			if knownSeen[ki] {
+				continue
+			}
+			knownSeen[ki] = true
+			rf := buildReplay(t, h, k, idx, runSeed, o)
+			path := fmt.Sprintf("%s/%s-%d-%d.json", *fReplays, *fProp, *fSeed, idx)
+			b, _ := json.MarshalIndent(rf, "", " ")
+			if err := os.WriteFile(path, b, 0o644); err != nil {
+				fmt.Println("INFRA", err)
+			}
+			emit(map[string]any{"kind": "violation", "prop": *fProp, "harness": h.Name, "check": rf.Check, "msg": rf.Message, "replay": path, "run_index": idx})
+			continue
 		}
 		if o.check != "" {
 			sum.Violations++
@@ -660,4 +681,39 @@ func replayMain(t *testing.T) {
 	if *fOut != "" {
 		os.WriteFile(*fOut, bb, 0o644)
 	}
+}
+
+type knownEntry struct {
+	Check    string `json:"check"`
+	Harness  string `json:"harness"`
+	Contains string `json:"message_contains"`
+}
+
+func loadKnownFile(path string) []knownEntry {
+	if path == "" {
+		return nil
+	}
+	b, err := os.ReadFile(path)
+	if err != nil {
+		fmt.Println("INFRA", err)
+		return nil
+	}
+	var v []knownEntry
+	if err := json.Unmarshal(b, &v); err != nil {
+		fmt.Println("INFRA", err)
+		return nil
+	}
+	return v
+}
+
+func matchKnown(known []knownEntry, harness, check, msg string) int {
+	if check == "" {
+		return -1
+	}
+	for i, k := range known {
+		if k.Check == check && (k.Harness == "" || k.Harness == harness) && (k.Contains == "" || strings.Contains(msg, k.Contains)) {
+			return i
+		}
+	}
+	return -1
 }
